@@ -47,7 +47,7 @@ CONSTANTS
     PLat,        \* pilots an open environment applies
     GLat,        \* further grant values tried between lo and hi
     Drops,       \* actual rate = pilot - d for d \in Drops (>= 0), or 0
-    MaxT,        \* periods 0 .. MaxT-1
+    MaxT,        \* periods 0 .. MaxT-1 (a behaviour ends with the schedule of period MaxT-1)
     MaxOn,       \* at most this many sessions plugged in at the same time
     Rec
 
@@ -56,7 +56,7 @@ ASSUME UpThr >= 0 /\ DownThr >= 0 /\ UpInc >= 0
 
 VARIABLES
     t,       \* current period (Simulator.iteration)
-    stage,   \* "events" | "call" | "sched" | "apply" | "done" | "emitted"
+    stage,   \* "events" | "call" (estimator about to be called) | "sched" | "apply" | "emitted"
     ph,      \* [SessIds -> "future" | "on" (plugged in, active) | "full" (plugged in, fully charged) | "gone"]
     old,     \* [SessIds -> BOOLEAN]  plugged in during the last applied period (arrival <= t-1)
     lastP,   \* [SessIds -> Nat]  pilot applied to the session's station in the last period
@@ -113,7 +113,7 @@ Depart(s) ==
     /\ UNCHANGED <<t, stage, ub, passed, grant, hist>>
 
 Invoke ==       \* all events of the period are processed; the scheduler runs
-    /\ stage = "events" /\ t < MaxT
+    /\ stage = "events"
     /\ stage' = "call"
     /\ UNCHANGED <<t, ph, old, lastP, lastR, ub, passed, grant, hist>>
 
@@ -139,7 +139,8 @@ Bounds(s, R) == LoHi(Mx(s), Mn(s), IF s \in DOMAIN ub THEN ub[s] ELSE -1, Unint,
 GrantSet(s, R) == LET b == Bounds(s, R) IN {0, b[1], b[2]} \cup {x \in GLat : b[1] <= x /\ x <= b[2]}
 Schedule ==
     /\ stage = "sched"
-    /\ \E R \in (IF Unint THEN SUBSET passed ELSE {{}}) :
+    \* (a minimum rate of 0 is never refused: adding 0 to a feasible vector of minimum rates keeps it feasible)
+    /\ \E R \in (IF Unint THEN SUBSET {s \in passed : Mn(s) > 0} ELSE {{}}) :
        \E g \in Prod([s \in passed |-> {x \in GrantSet(s, R) : x = 0 \/ x >= Bounds(s, R)[1]}], passed) :
           /\ grant' = Total(g)
           /\ hist' = Log([refused |-> R, lohi |-> AsSeq([s \in passed |-> Bounds(s, R)]), grant |-> AsSeq(g)])
@@ -150,9 +151,9 @@ Schedule ==
 RateSet(p) == {p - d : d \in {d \in Drops : p - d >= 0}} \cup {0}
 PilotSet(s) == IF Closed THEN {grant[s]} ELSE {x \in PLat : x <= Mx(s)} \cup {grant[s]}
 Apply ==
-    /\ stage = "apply"
+    /\ stage = "apply" /\ t < MaxT - 1
     /\ \E pr \in Prod([s \in Active |-> UNION {{<<p, r>> : r \in RateSet(p)} : p \in PilotSet(s)}], Active) :
-       \E F \in SUBSET {s \in Active : pr[s][2] > 0} :
+       \E F \in {X \in SUBSET {s \in Active : pr[s][2] > 0} : Cardinality(X) <= 1} :
           /\ lastP' = [s \in SessIds |-> IF s \in Active THEN pr[s][1] ELSE 0]
           /\ lastR' = [s \in SessIds |-> IF s \in Active THEN pr[s][2] ELSE 0]
           /\ ph' = [s \in SessIds |-> IF s \in F THEN "full" ELSE ph[s]]
@@ -161,11 +162,11 @@ Apply ==
     /\ t' = t + 1 /\ stage' = "events"
     /\ UNCHANGED <<ub, passed, grant>>
 
-Finish ==
-    /\ stage = "events" /\ t = MaxT
+Finish ==       \* the last invocation (period MaxT-1) has been made
+    /\ stage = "apply" /\ t = MaxT - 1
     /\ IF Rec THEN PrintT(<<"BHV", ToJson([up |-> UpThr, dn |-> DownThr, inc |-> UpInc, unint |-> Unint, closed |-> Closed,
                                            st |-> AsSeq([x \in Stations |-> <<MaxPilot[x], MinPilot[x]>>]),
-                                           ses |-> AsSeq(StationOf), steps |-> hist])>>)
+                                           ses |-> AsSeq([s \in SessIds |-> StationOf[s]]), steps |-> hist])>>)
        ELSE TRUE
     /\ stage' = "emitted"
     /\ UNCHANGED <<t, ph, old, lastP, lastR, ub, passed, grant, hist>>
@@ -215,7 +216,7 @@ ObsShape ==
     /\ DOMAIN ObsP \subseteq DOMAIN ObsR
     /\ t <= 1 => DOMAIN ObsP = {}
     /\ \A s \in DOMAIN ObsP : ph[s] = "on" /\ old[s] /\ ObsR[s] <= ObsP[s]
-    /\ (Closed /\ stage # "apply") => \A s \in DOMAIN ObsP : ObsP[s] = grant[s]
+    /\ (Closed /\ stage \in {"events", "call", "sched"}) => \A s \in DOMAIN ObsP : ObsP[s] = grant[s]
 
 -----------------------------------------------------------------------------
 \* Action properties (each over one step; the estimator's step is the one from "call" to "sched")
